@@ -171,6 +171,7 @@ class Model:
     def __init__(self):
         self.atnums = None
         self.core = None  # explicitly assigned core charges
+        self.cached_from = None  # atnums value from which the lazy default was materialised
         self.mo = None
         self.arrays = {"atcoords": None, "atmasses": None, "atgradient": None, "atfrozen": None}
 
@@ -202,11 +203,24 @@ class Model:
         n = natoms_of(attr, key)
         return any(v != n for v in others.values())
 
+    def touch_default(self):
+        """An access that is documented to fill in the default core charges (reads of atcorenums /
+        charge, assignments of charge).  Only used to recognise the *known* stale-default finding
+        precisely; the statement itself says the default always follows the atomic numbers."""
+        if self.core is None and self.cached_from is None and self.atnums is not None:
+            self.cached_from = self.atnums
+
+    def known_stale_value(self):
+        if self.core is None and self.cached_from is not None:
+            return VALUES["atnums"][self.cached_from].astype(float)
+        return None
+
     def assign(self, attr, key):
         if attr == "atnums":
             self.atnums = key
         elif attr == "atcorenums":
             self.core = key
+            self.cached_from = None
         elif attr == "mo":
             self.mo = key
         elif attr in self.arrays:
@@ -231,9 +245,8 @@ def check_invariants(obs, model, when):
     want = model.expected_core()
     if not same(core, want):
         if model.core is None:
-            stale = core is not None and any(
-                same(core, arr.astype(float)) for arr in VALUES["atnums"].values()
-            )
+            known = model.known_stale_value()
+            stale = known is not None and same(core, known)
             bucket = "C11/atcorenums/stale_default" if stale else "C11/atcorenums/default_wrong"
         else:
             bucket = "C11/atcorenums/explicit_lost"
@@ -289,6 +302,8 @@ def run_program(spec):
         return [], info
     for attr, key in spec["ctor"].items():
         model.assign(attr, key)
+    if spec["ctor"].get("charge") is not None:
+        model.touch_default()
     obs, problems = observe(data)
     problems += check_invariants(obs, model, "after construction")
     rev_obs, rev_problems = observe(data, reverse=True)
@@ -313,6 +328,8 @@ def run_program(spec):
         if op[0] == "read":
             name = op[1]
             info["reads"] += 1
+            if name in ("atcorenums", "charge"):
+                model.touch_default()
             try:
                 got = getattr(data, name)
             except Exception as exc:
@@ -335,6 +352,8 @@ def run_program(spec):
             outcome = None
         except Exception as exc:
             outcome = exc
+        if attr == "charge":
+            model.touch_default()  # the charge setter consults the core charges, also when it fails
         new_obs, problems = observe(data)
         if outcome is not None:
             if breaks and not isinstance(outcome, TypeError):
